@@ -15,6 +15,14 @@ claimed = {
     design="5 C17", technique="bounded symbolic execution of go/ssa + SMT (z3, QF_BV), differential against reference model, native replay"),
 }
 
+claimed["C10"] = dict(
+    text="Bounded symbolic execution of the real Router.NewRoute/parseRoute from go/ssa against an independent three-valued "
+         "recogniser of the documented grammar: for every pattern string up to N bytes over the full byte alphabet and three "
+         "parameter-limit configurations, acceptance == grammar (outside the stated don't-care regions), rejection is "
+         "ErrInvalidRoute, accessors are consistent, and no run-time panic is reachable. Exhaustive within the bound "
+         "(quick N=6, thorough N=8).",
+    design="5 C10", technique="bounded symbolic execution of go/ssa + SMT (z3, QF_BV), differential against grammar recogniser, native replay")
+
 reasons = {}
 
 ids = [json.loads(l)["id"] for l in open("/verif/properties.jsonl")]
